@@ -46,6 +46,12 @@ static void flush_events(H& h)
   g_nev.store(0);
 }
 
+void H::note_begin()
+{
+  std::fprintf(out, "{\"e\":\"CaseBegin\",\"case\":%d,\"rep\":%d,\"t\":%d}\n", case_id, rep, tl_tid);
+  std::fflush(out);
+}
+
 void H::end()
 {
   // sink messages are attributed to statements in order: one message per statement (the format strings never end
